@@ -7,7 +7,9 @@ for d in seeded/*/; do
   out=$(tools/seed_eval.sh "$prop" "$(pwd)/${d}patch.diff" 2>&1)
   rc=$(echo "$out" | sed -n 's/^exit=//p')
   first=$(echo "$out" | grep -m1 "^VIOLATION\|^UNDECIDED\|^OK" | cut -c1-170)
-  echo "$id exit=$rc  $first"
-  [ "$rc" = "1" ] || bad=1
+  # a seed that is honestly NOT reported (meta.json: expected_exit 2) must at least never pass as OK
+  want=$(python3 -c "import json,sys;print(json.load(open(sys.argv[1])).get('expected_exit',1))" "${d}meta.json" 2>/dev/null || echo 1)
+  echo "$id exit=$rc (expected $want)  $first"
+  [ "$rc" = "$want" ] || bad=1
 done
 exit $bad
